@@ -211,6 +211,27 @@ def _standin_classes(rep, tier, rng):
                         rep.violation("grid landscape: (%s).sup_norm() = %s after the operand's norm had been computed, largest absolute value is %s" % (nm, gs, ws),
                                       "supnorm:derived-after-norm", {"input": {"dgm1": d1.tolist(), "dgm2": d2.tolist(), "operation": nm, "c": c}, "observed": gs, "expected": ws})
                         break
+            # grid landscapes given by their values (integer-typed arrays included) on grids whose nodes are not integers
+            for _rep2 in range(2):
+                m = rng.choice([4, 6, 9])
+                a0 = rng.choice([0.0, -1.5, 0.25])
+                b0 = a0 + rng.choice([2.5, 7.5, 0.6, 3.0])
+                vdt = rng.choice([int, int, float])
+                V = np.array([[rng.randint(-2, 3) for _i in range(m)] for _d in range(rng.randint(1, 2))], dtype=vdt)
+                if not V.any():
+                    continue
+                L0 = PersLandscapeApprox(start=a0, stop=b0, num_steps=m, values=V.copy(), hom_deg=0)
+                for nm, L in (("A", L0), ("3*A", 3 * L0), ("-A", -L0), ("A-A/2", L0 - L0 / 2)):
+                    for p in (1, 2, 2.5):
+                        evals += 1
+                        got = L.p_norm(p)
+                        pairs = own_pairs(L)
+                        want = p_norm(p, pairs)
+                        distinct.add(("values-given", np.dtype(vdt).kind, nm))
+                        if not _close(got, want):
+                            rep.violation("grid landscape given by %s values %s on [%r, %r]: (%s).p_norm(%s) = %s, the integral of the function it represents is %s" % (np.dtype(vdt).name, V.tolist(), a0, b0, nm, p, got, want),
+                                          "pnorm:values-given", {"input": {"values": V.tolist(), "dtype": np.dtype(vdt).name, "start": a0, "stop": b0, "num_steps": m, "operation": nm, "p": p}, "observed": got, "expected": want})
+                            break
             sa = DA.sup_norm()
             if not _close(float(sa), float(np.max(np.abs(DA.values)))):
                 rep.violation("grid sup norm mismatch", "supnorm:grid", {"input": {"dgm1": d1.tolist(), "dgm2": d2.tolist()}, "observed": float(sa)})
